@@ -133,7 +133,7 @@ def wall_pair(draw):
 @st.composite
 def dt_pair_case(draw):
     w1, w2 = draw(wall_pair())
-    kind = draw(st.sampled_from(["utc", "naive", "fixed", "zone", "zone", "date", "helpers"]))
+    kind = draw(st.sampled_from(["utc", "naive", "fixed", "fixed_distinct", "zone", "zone", "date", "helpers"]))
     return {"kind": kind, "w1": w1, "w2": w2, "off": draw(S.fixed_offset_seconds()), "zone": draw(S.zones())}
 
 
@@ -180,6 +180,14 @@ class DateTimePairs(Sub):
         elif kind == "fixed":
             tz = pendulum.tz.fixed_timezone(case["off"])
             a, b = pendulum.datetime(*T.fields(wa), tz=tz), pendulum.datetime(*T.fields(wb), tz=tz)
+        elif kind == "fixed_distinct":
+            # the same fixed offset on two separate tzinfo objects (what two parsed strings, or a value and its pickled copy, carry): equal zones, not identical ones
+            import pickle
+            tza = pendulum.tz.timezone.FixedTimezone(case["off"])
+            tzb = pickle.loads(pickle.dumps(tza)) if case["off"] % 2 else pendulum.tz.timezone.FixedTimezone(case["off"])
+            req(tza is not tzb, "harness: the two tzinfo objects are one")
+            a, b = pendulum.datetime(*T.fields(wa), tz=tza), pendulum.datetime(*T.fields(wb), tz=tzb)
+            kind = "fixed"
         else:
             z = case["zone"]
             ka, ua = T.expected_construct(w1, z, 1)
@@ -244,7 +252,7 @@ class DateTimePairs(Sub):
                 got = interval_components(iv3)
                 req(got == (want if span > 0 else c), f"{nm} does not report the components of b - a{' negated' if want is neg else ''}", a=str(a), b=str(b), got=got,
                     expected=want)
-        return borrow, kind
+        return borrow, case["kind"]
 
 
 @st.composite
